@@ -97,6 +97,39 @@ CHECKS = {
         note='Frames are judged at the moment they enter the send path (a queued frame cannot be recalled, like bytes in a '
              'socket buffer); SETUP-first and decodability are judged on the wire.',
         design='4/C08'),
+    'C09': dict(
+        category='exploration',
+        technique='offline checker over recorded histories at both application boundaries and both taps (exactly-one CANCEL, nothing after cancel, producer cancelled, no production after the CANCEL was received, bystanders intact)',
+        text='E-mix cases with cancelling interactions at every moment relative to request, credit, elements in flight and '
+             'completion (inside on_subscribe, after the k-th element, after a delay; future cancel; responder-side cancel '
+             'of a channel direction) against every library source, with link batching so CANCEL shares a read with the '
+             'request and 1..3 bystander interactions that must still satisfy the C01 ledger; plus the C07 history '
+             'enumeration with local cancel / peer CANCEL at every position. Held-on-explored.',
+        note='CANCEL frames are counted where they enter the send path. A future-based cancel that loses the race against '
+             'the terminating frame legitimately sends no CANCEL (C08 forbids it).',
+        design='4/C09'),
+    'C10': dict(
+        category='exploration',
+        technique='invariant at a quiescent point: stream table and reassembly cache of both endpoints read when every interaction of the run has terminated; stream-id reuse probe by the raw peer',
+        text='E-mix "endings" cases (every way an interaction can end, both roles, with/without fragmentation) and the C07 '
+             'history enumeration; a run is judged only when every interaction has terminated by the statement\'s list. '
+             'Open streams or partial frames left at quiescence, or a REJECTED answer to a fresh request on the same id, '
+             'are witnesses. Held-on-explored; one known finding (channel ERROR / requester CANCEL).',
+        note='Reads two private tables (same observation as the suite\'s assert_no_open_streams); endings are judged at '
+             'quiescence before the harness closes the connection.',
+        design='4/C10'),
+    'C11': dict(
+        category='fault_enumeration',
+        technique='fault enumeration over a recorded reference execution: cut after every byte offset / message index per direction (EOF and error), explicit close at every instant, n-th write failure, raising application code inside the clean-up; post-fault oracle on futures, subscribers, publishers, on_close, tap and tasks',
+        text='Deterministic scenarios with pending interactions in both roles are executed once to record delivered bytes '
+             'per direction, frame boundaries and instants, then re-executed once per fault point. After a 12 s virtual '
+             'settle: nothing handed out before the fault is left pending or failed twice, producing publishers / '
+             'handler futures are cancelled, on_close was delivered exactly once per endpoint, nothing is sent any more '
+             '(keepalives included), tasks are finished. Quick: frame boundaries +-1 and a stride; thorough: every offset. '
+             'One known finding (loss unnoticed while a handler is suspended).',
+        note='Pending = API call made before that endpoint delivered on_close. Scenarios use fixed link knobs so each '
+             'fault point replays the same execution up to the fault.',
+        design='4/C11'),
     'C13': dict(
         category='exploration',
         technique='reference-model monitor over exhaustively enumerated allocator histories + wire monitor on real endpoints',
